@@ -71,9 +71,10 @@ L13 == <<35,50,48,48,48,32,106,97,110,32,49,32,49,50,58,48,48,32,97,109,35>>
 Literals == /\ OneFixed(L1, CivilInstant(2000, 2, 29, 23, 59, 59, 500000000, -14400))
             /\ OneFixed(L2, CivilInstant(2000, 2, 29, 23, 59, 59, 500000000, -14400))
             /\ OneFixed(L3, CivilInstant(2000, 2, 29, 23, 59, 59, 500000000, 0))
-            /\ Refused(L4)
+            /\ (LET s4 == S(L4) IN ~s4.silent /\ s4.valid # {} /\ \A r \in s4.valid : r.soft)
             /\ OneFixed(L5, CivilInstant(2000, 2, 29, 23, 59, 0, 0, 0))
-            /\ Refused(L6) /\ Refused(L7) /\ Refused(L8) /\ Refused(L9) /\ Refused(L10)
+            /\ Refused(L6) /\ Refused(L7) /\ Refused(L9) /\ Refused(L10)
+            /\ (LET s8 == S(L8) IN ~s8.silent /\ s8.valid # {} /\ \A r \in s8.valid : r.soft)
             /\ S(L11).silent
             /\ OneFixed(L12, CivilInstant(0, 1, 1, 0, 0, 0, 0, 0))
             /\ OneFixed(L13, CivilInstant(2000, 1, 1, 0, 0, 0, 0, 0))
